@@ -392,11 +392,17 @@ func genPlan(rng *rand.Rand, blocks int) plan {
 			np := genParams(rng)
 			ops = append(ops, op{Kind: "params", Route: genRoute(rng), Params: &np})
 			cur = np
+			if rng.Intn(100) < 60 {
+				// a new schedule usually comes with a pool for it (again sized relative to the reward)
+				if cs := genPool(rng, np); len(cs) > 0 {
+					ops = append(ops, op{Kind: "topup", Coins: cs})
+				}
+			}
 		}
 		if rng.Intn(100) < 7 {
 			ops = append(ops, op{Kind: "toggle", Route: genRoute(rng)})
 		}
-		if rng.Intn(100) < 7 {
+		if rng.Intn(100) < 10 {
 			// top the pool up, preferably with rewarded denominations
 			var cs []rc
 			var cand []string
